@@ -38,7 +38,16 @@ type c23Input struct {
 	Plan      []string `json:"plan"`       // outcome of the k-th Execute call: ok | noleader | err | errapplied (ok when exhausted)
 	Malformed int      `json:"malformed"`  // extra requests with a body that does not parse
 	Checkpt   bool     `json:"checkpoint"` // single client, all wait, some requests with no statements
-	Seed      int64    `json:"seed"`
+	// Stall > 0: the "consumer stalled, then nothing more arrives" scenario.  One client; the first Stall Execute
+	// calls fail (leader known, execution fails: 1 s retry delay each).  A full batch is taken by runQueue and
+	// keeps failing; Backlog more full batches queue up behind it (the first parks in the queue's one-slot output
+	// channel); then TrailShort (< batch size) requests arrive, the last one with &wait if TrailWait, their batch
+	// timeout fires during the stall; then the failures stop and NO further request is sent.
+	Stall      int  `json:"stall,omitempty"`
+	Backlog    int  `json:"backlog,omitempty"`
+	TrailShort int  `json:"trail_short,omitempty"`
+	TrailWait  bool `json:"trail_wait,omitempty"`
+	Seed       int64 `json:"seed"`
 }
 
 type c23Call struct {
@@ -167,6 +176,10 @@ func c23Exec(in c23Input) *c23Result {
 		res.reqs = append(res.reqs, r)
 		return r
 	}
+	waitTO := "60s"
+	if in.Stall > 0 {
+		waitTO = fmt.Sprintf("%ds", in.Stall+20) // the stall lasts in.Stall seconds; 20 s beyond it is >= 100 queue timeouts + retry delays
+	}
 	post := func(r *c23Req) {
 		var body string
 		if r.bad {
@@ -180,7 +193,7 @@ func c23Exec(in c23Input) *c23Result {
 		}
 		url := host + "/db/execute?queue"
 		if r.wait {
-			url += "&wait&timeout=60s"
+			url += "&wait&timeout=" + waitTO
 		}
 		r.sentAt = time.Now()
 		resp, err := client.Post(url, "application/json", strings.NewReader(body))
@@ -233,6 +246,35 @@ func c23Exec(in c23Input) *c23Result {
 		for i := 0; i < in.Malformed && c == 0; i++ {
 			at := rng.Intn(len(plans[c]) + 1)
 			plans[c] = append(plans[c][:at], append([]plan{{n: 1, bad: true, wait: rng.Intn(2) == 0}}, plans[c][at:]...)...)
+		}
+	}
+	if in.Stall > 0 {
+		nClients = 0
+		order := 0
+		one := func(wait bool) *c23Req {
+			r := mk(0, order)
+			r.wait = wait
+			for k := 0; k < 1+rng.Intn(2); k++ {
+				r.stmts = append(r.stmts, 1000000+uint64(order)*100+uint64(k)+1)
+			}
+			order++
+			return r
+		}
+		for i := 0; i < in.BatchSize; i++ { // the batch runQueue will be stuck on
+			post(one(false))
+		}
+		time.Sleep(time.Duration(in.TimeoutMs+150) * time.Millisecond)
+		for i := 0; i < in.Backlog*in.BatchSize; i++ {
+			post(one(false))
+		}
+		for i := 0; i < in.TrailShort; i++ {
+			r := one(in.TrailWait && i == in.TrailShort-1)
+			if r.wait {
+				wg.Add(1)
+				go func() { defer wg.Done(); post(r) }()
+			} else {
+				post(r)
+			}
 		}
 	}
 	for c := 0; c < nClients; c++ {
@@ -333,6 +375,8 @@ func c23Oracle(res *c23Result) []string {
 			lastSeq[r.client] = r.seq
 		case r.status == 503:
 			// no leader at acceptance time: rejected, must never be applied
+		case r.status == 408 && r.wait:
+			add("C23:wait-timed-out-although-node-running-and-leader-back", "request %d (&wait, statements %v) got 408 %q after %v: its batch was not applied within %s although Execute succeeds again and nothing else is queued", r.id, r.stmts, r.errText, r.doneAt.Sub(r.sentAt).Round(time.Millisecond), "the wait timeout")
 		default:
 			add("C23:unexpected-http-status", "request %d: status %d %s", r.id, r.status, r.errText)
 		}
@@ -608,6 +652,9 @@ func c23RunCase(w *vWriter, in c23Input) {
 	if in.Checkpt {
 		tags = append(tags, "checkpoint-requests")
 	}
+	if in.Stall > 0 {
+		tags = append(tags, "consumer-stalled-then-quiet")
+	}
 	if in.Malformed > 0 {
 		tags = append(tags, "malformed-request")
 	}
@@ -652,6 +699,14 @@ func c23Gen(rng *rand.Rand, i int) c23Input {
 	if i%5 == 1 {
 		in.Malformed = 1 + rng.Intn(2)
 	}
+	if i%6 == 5 {
+		in = c23Input{BatchSize: 2 + rng.Intn(3), Cap: []int{8, 64, 1024}[rng.Intn(3)], TimeoutMs: []int{10, 20, 50}[rng.Intn(3)], Tx: rng.Intn(2) == 0,
+			Stall: 2 + rng.Intn(2), Backlog: 1 + rng.Intn(2), TrailWait: rng.Intn(3) > 0, Seed: rng.Int63()}
+		in.TrailShort = 1 + rng.Intn(in.BatchSize-1)
+		for k := 0; k < in.Stall; k++ {
+			in.Plan = append(in.Plan, []string{"err", "err", "errapplied"}[rng.Intn(3)])
+		}
+	}
 	return in
 }
 
@@ -676,6 +731,10 @@ func TestVerif_C23(t *testing.T) {
 		c23Input{BatchSize: 128, Cap: 1024, TimeoutMs: 20, Clients: 4, PerClient: 40, WaitPct: 0, Seed: 3},
 		c23Input{BatchSize: 2, Cap: 8, TimeoutMs: 5, PerClient: 12, Checkpt: true, Plan: []string{"ok", "errapplied"}, Seed: 4},
 		c23Input{BatchSize: 4, Cap: 8, TimeoutMs: 5, Clients: 2, PerClient: 6, WaitPct: 50, Malformed: 2, Seed: 5},
+		c23Input{BatchSize: 2, Cap: 64, TimeoutMs: 50, Stall: 2, Backlog: 1, TrailShort: 1, TrailWait: true, Plan: []string{"err", "err"}, Seed: 6},
+		c23Input{BatchSize: 2, Cap: 64, TimeoutMs: 50, Stall: 3, Backlog: 1, TrailShort: 1, Plan: []string{"err", "errapplied", "err"}, Seed: 7},
+		c23Input{BatchSize: 3, Cap: 1024, TimeoutMs: 20, Stall: 2, Backlog: 1, TrailShort: 2, TrailWait: true, Plan: []string{"err", "err"}, Seed: 8},
+		c23Input{BatchSize: 2, Cap: 8, TimeoutMs: 30, Stall: 2, Backlog: 2, TrailShort: 1, TrailWait: true, Plan: []string{"err", "err"}, Seed: 9},
 	)
 	n := vN(24, 400)
 	for i := 0; i < n; i++ {
